@@ -18,7 +18,9 @@ RULE = ("fmt-grid: every shipped locale x 7 units x counts (0..130 + plural-clas
         "instants: random and boundary pairs of instants in one zone through diff_for_humans(other)/Date/Time and real Duration/Interval objects; "
         "instants-xz: the two instants written in DIFFERENT zones (negative and positive non-whole-hour offsets: St_Johns, Marquesas, Caracas, Kathmandu, Lord_Howe, "
         "Chatham, fixed -23:59..+23:59), a deterministic block of negative odd offsets x 4 partner zones x 7 spans, the witnesses of the listed findings "
-        "(second occurrence of a repeated wall time, wall-clock order inside a repeated hour, mis-carried UTC shift of the compiled helper), random pairs with spans "
+        "(wall-clock order inside a repeated hour, mis-carried UTC shift of the compiled helper) and of the repaired finding interval-init-drops-fold, whose region is "
+        "now an ordinary deterministic block: endpoints that are the SECOND occurrence of a repeated wall time (8 overlaps of Paris, New_York, St_Johns, Lord_Howe, Chatham, "
+        "Kolkata 1945; as reference and as instance) x 6 partner zones incl. the zone itself x 6 spans, both directions; random pairs with spans "
         "from 1 s to 13 years; both instants streams are INSIDE the model (Model/DiffHumans.v: components, invert and phrase are compared per backend); "
         "session: ONE case = a whole history of the process executed in order — set_locale with shipped names in several spellings, with names that are REJECTED "
         "(unknown, not a str), get_locale, pendulum.locale, and rendering calls with and without a locale argument (format_diff, in_words, format tokens on duck-typed "
@@ -35,7 +37,7 @@ TRUSTED = ["string.Formatter().parse (CPython's own str.format field parser) is 
            "the correspondence run compares every output string",
            "set_locale / get_locale / Locale.load / Locale.normalize_locale (ASCII names) and the `locale is None` defaults are a hand model (coq/Model/LocaleSession.v) "
            "compared output by output on whole call histories (stream session); these functions are not yet in tools/pins.json",
-           "Interval's endpoint ordering, fold-less native rebuild and component properties, and both precise_diff backends are the C06 models (Model/PdBase.v, "
+           "Interval's endpoint ordering, native rebuild (with the operand's fold) and component properties, and both precise_diff backends are the C06 models (Model/PdBase.v, "
            "PdInterval.v, RustPreciseDiff.v, Gen/PreciseDiff.v) composed in coq/Model/DiffHumans.v; local wall fields and offsets of the operands are computed by "
            "the harness with datetime + zoneinfo and checked against what pendulum reports"]
 ASSUMPTIONS = ["difference objects carry integer components (years, months, weeks, remaining_days, hours, minutes, remaining_seconds) as produced by Duration/Interval",
@@ -250,10 +252,41 @@ def _chunks_by_region(items, size):
     return out
 
 
+# UTC instants inside the SECOND occurrence of a repeated wall time (zone, UTC fields): whole-hour and half-hour overlaps, positive and negative
+# offsets, one whose local date differs from the UTC date, the first second and the last second of an overlap
+SECOND_OCCURRENCES = [("Europe/Paris", [2012, 10, 28, 1, 20, 0]), ("Europe/Paris", [1996, 10, 27, 1, 0, 0]), ("America/New_York", [2021, 11, 7, 6, 10, 0]),
+                      ("America/St_Johns", [1996, 10, 27, 2, 55, 0]), ("America/St_Johns", [2021, 11, 7, 5, 29, 59]), ("Australia/Lord_Howe", [2021, 4, 3, 15, 5, 0]),
+                      ("Pacific/Chatham", [2012, 3, 31, 14, 30, 0]), ("Asia/Kolkata", [1945, 10, 14, 17, 45, 0])]
+
+
+def _second_occurrence_items():
+    """The region of the repaired finding interval-init-drops-fold as ordinary cases: the reference (or the instance) is the second occurrence of
+    a repeated wall time; the other value is `span` seconds away in a partner zone (or in the zone itself).  Only instants that the stdlib
+    renders with fold=1 are used (a tz database without that overlap drops the item)."""
+    import datetime as _dt
+    out = []
+    for zi, (z, f) in enumerate(SECOND_OCCURRENCES):
+        t = _dt.datetime(*f, tzinfo=_dt.timezone.utc)
+        try:
+            if t.astimezone(_std_tz(z)).fold != 1:
+                continue
+        except Exception:  # noqa
+            continue
+        for pi, partner in enumerate(("UTC", "Asia/Kolkata", "America/New_York", "Europe/Paris", -16200, z)):
+            for si, span in enumerate((1, 45, 3600, 4200, 90000, 3 * 86400 + 5)):
+                k = zi + pi + si
+                u = t - _dt.timedelta(seconds=span)
+                # the reference is the second occurrence, `span` after the instance
+                out.append([[u.year, u.month, u.day, u.hour, u.minute, u.second], span, partner, k % 2, int(k % 5 == 0), z])
+                # the instance is the second occurrence, the reference `span` later
+                out.append([list(f), span, z, (k + 1) % 2, int(k % 7 == 0), partner])
+    return out
+
+
 def _listed_witnesses():
     """deterministic inputs inside the regions of the listed findings (they re-confirm the finding on every run) and right next to them"""
     return [
-        # interval-init-drops-fold: the reference is the SECOND 02:30 of 2012-10-28 in Paris, one hour / 70 minutes after the instance
+        # interval-init-drops-fold (repaired: these must PASS): the reference is the SECOND 02:30 of 2012-10-28 in Paris, one hour / 70 minutes after the instance
         [[2012, 10, 28, 0, 30, 0], 3600, "UTC", 0, 0, "Europe/Paris"], [[2012, 10, 28, 0, 30, 0], 3600, "America/New_York", 1, 0, "Europe/Paris"],
         [[2012, 10, 28, 1, 30, 0], 4200, "Europe/Paris", 1, 1, "Asia/Kolkata"], [[2012, 10, 28, 0, 30, 0], 3600, "UTC", 0, 0, "UTC"],
         # same-tzinfo-wall-order (C05): 02:45 first occurrence vs 02:15 second occurrence, same zone object
@@ -331,8 +364,9 @@ def cases(tier, seed):
                 xz_det.append([[2020, 6, 15, 14, 30, 0], span, z, (len(xz_det) // 3) % 2, 0, z2])
                 xz_det.append([[2009, 1, 31, 23, 45, 10], span, z2, (len(xz_det) // 3) % 2, len(xz_det) % 2, z])
     wit = _listed_witnesses()
+    so = _second_occurrence_items()
     en = locs.index("en") if "en" in locs else 0
-    for it in xz_det + wit:
+    for it in xz_det + wit + so:
         out.append({"stream": "instants-xz", "fn": "instants", "args": [en, locs[en], [it]]})
     for _ in range(500 if tier == "quick" else 6000):
         st = [rnd.randrange(1900, 2090), rnd.randrange(1, 13), rnd.choice([1, 1, 2, 15, 27, 28, rnd.randrange(1, 29)]), rnd.choice([0, 0, 1, 5, 12, 22, 23, 23]),
@@ -343,7 +377,8 @@ def cases(tier, seed):
         z2 = rnd.choice([z for z in XZONES if z != z1])
         xz.append([st, span, z1, rnd.choice([0, 1]), rnd.choice([0, 0, 1]), z2])
     for li, loc in enumerate(locs):
-        mine = xz if loc == "en" else [wit[(li + k) % len(wit)] for k in (0, 3, 6)] + rnd.sample(xz_det, 6) + rnd.sample(xz, 40 if tier == "quick" else 400)
+        mine = xz if loc == "en" else ([wit[(li + k) % len(wit)] for k in (0, 3, 6)] + [so[(li * 37 + k * 101) % len(so)] for k in range(4 if so else 0)]
+                                       + rnd.sample(xz_det, 6) + rnd.sample(xz, 40 if tier == "quick" else 400))
         for chunk in _chunks_by_region(mine, 150):
             out.append({"stream": "instants-xz", "fn": "instants", "args": [li, loc, chunk]})
     # 7. real Duration objects (integer arguments) + glue (default locale, aliases, now)
@@ -680,7 +715,9 @@ def _name_id(n):
 
 def _enc_operand(o):
     n = _name_id(_tz_name(o["zone"]))
-    return o["f"] + [0, o["off"], 1, n, n, 1, o["off0"]]       # one tzinfo object per zone name (pendulum.timezone caches both kinds)
+    # the offset is the one the operand's fold selects: Interval.__init__ passes fold= to the natives it hands to precise_diff (since the repair
+    # of finding interval-init-drops-fold); one tzinfo object per zone name (pendulum.timezone caches both kinds)
+    return o["f"] + [0, o["off"], 1, n, n, 1]
 
 
 def _enc_str(x):
@@ -1021,8 +1058,8 @@ def _failures(c, r, backend=None):
                 cls = "zh-time-placeholder" if (loc == "zh" and not it[4] and "raised KeyError" in why) else None
                 if cls is None and part == "dt":
                     # a listed finding is recognised by the call site (DateTime.diff / diff_for_humans(other)) and the region of the input
-                    reg = reg or _region(it) or "-"
-                    if reg != "-" and (reg != "rs-cross-zone-shift" or backend == "rs"):
+                    reg = reg or _region(it, backend or "py") or "-"
+                    if reg != "-":
                         cls = reg
                 f.append((cls, f"{loc} {it}: {why}"))
     elif fn == "durations":
@@ -1087,7 +1124,8 @@ def _rs_shift_irregular(x, y):
     """Region of listed finding rs-cross-zone-shift (C06), as a predicate on the two operands: the compiled precise_diff subtracts the UTC
     offset from (hour, minute, second, day) by hand — truncating division, carries tested with `> 60` / `> 24`, the day moved without any
     month carry — whenever the zone names differ (and the offset is not 0) or both operands fall on the same local date; the region is where
-    that leaves second 60, minute 60, hour 24, day 0 or a day past the end of the month.  The offsets are those of the fold-less natives."""
+    that leaves second 60, minute 60, hour 24, day 0 or a day past the end of the month.  The offsets are those of the natives Interval.__init__
+    builds, which carry the operands' fold (since the repair of finding interval-init-drops-fold): the operands' own offsets."""
     same = _tz_name(x["zone"]) == _tz_name(y["zone"])
     td0 = x["f"][:3] == y["f"][:3]
 
@@ -1095,7 +1133,7 @@ def _rs_shift_irregular(x, y):
         q = abs(a) // b
         return q if a >= 0 else -q
     for op in (x, y):
-        off = op["off0"]
+        off = op["off"]
         if off == 0 or not ((not same) or td0):
             continue
         yy, mo, dd, hh, mm, ss = op["f"]
@@ -1121,18 +1159,20 @@ def _rs_shift_irregular(x, y):
     return False
 
 
-def _region(it):
+def _region(it, backend=None):
     """The listed finding (or None) whose region — a predicate on the INPUT — contains this pair of instants:
        same-tzinfo-wall-order    both values carry the same zone and their wall-clock order is not the order of the instants (C05);
-       interval-init-drops-fold  one of them is the second occurrence of a repeated wall time;
-       rs-cross-zone-shift       compiled backend only, see _rs_shift_irregular (C06)."""
+       rs-cross-zone-shift       compiled backend only (backend None: either), see _rs_shift_irregular (C06);
+       interval-init-drops-fold  (REPAIRED, status fixed: a failure classified here is reported as a VIOLATION) one of them is the second
+                                 occurrence of a repeated wall time — Interval.__init__ used to rebuild its natives without fold=.
+    The two listed findings come first: inside their regions a failure is theirs whichever occurrence the endpoints are."""
     x, y = _operands(it)
     if _tz_name(x["zone"]) == _tz_name(y["zone"]) and (x["f"] > y["f"]) != (x["t"] > y["t"]):
         return "same-tzinfo-wall-order"
+    if backend in (None, "rs") and _rs_shift_irregular(x, y):
+        return "rs-cross-zone-shift"
     if x["off"] != x["off0"] or y["off"] != y["off0"]:
         return "interval-init-drops-fold"
-    if _rs_shift_irregular(x, y):
-        return "rs-cross-zone-shift"
     return None
 
 
@@ -1263,10 +1303,12 @@ LEVEL_TEXT = ("Machine-checked Coq theorems over the generated tables of ALL shi
               "in_words and the locale-dependent tokens; unit/count rounding and direction specs; the process-wide default locale as a state machine over whole call "
               "histories (a rejected set_locale keeps the configuration, the configuration is the last successfully set name and always loads, rendering with the ambient "
               "locale is total after EVERY history, results with an explicit locale are independent of the history); DateTime.diff_for_humans(other) end to end on the C06 "
-              "precise_diff models (total; direction proved for different tzinfo objects or equal offsets, refuted inside a repeated hour; magnitude refuted for second "
-              "occurrences and for the compiled helper's mis-carried UTC shift — three listed findings with machine-checked witnesses — and PROVED within one unit of the "
-              "true elapsed time for zero-offset pairs less than a day apart, both backends, through C06's characterisation of precise_diff); the two data defects found here (zh {time} templates, nl week_data) were repaired by fix: commits "
-              "in /repo, the statements are now proved at full strength and the defects are reported as violations if they return. Exhaustive correspondence model = implementation, string for string.")
+              "precise_diff models (total; direction proved for different tzinfo objects or equal offsets, refuted inside a repeated hour; precise_diff is handed the "
+              "operands themselves, each with the offset its own fold selects, for EVERY pair — diff_sees_operands, full strength since finding interval-init-drops-fold "
+              "was repaired (Interval.__init__ rebuilt its natives without fold=), diff_second_occurrence re-computes its former witness: one hour, both backends, both directions; "
+              "magnitude refuted for the compiled helper's mis-carried UTC shift — two listed findings with machine-checked witnesses — and PROVED within one unit of the "
+              "true elapsed time for zero-offset pairs less than a day apart, both backends, through C06's characterisation of precise_diff); the three defects found here and repaired by fix: commits "
+              "in /repo (zh {time} templates, nl week_data, Interval.__init__ dropping fold) have their statements proved at full strength and are reported as violations if they return. Exhaustive correspondence model = implementation, string for string.")
 DESIGN_REF = "DESIGN.md section 4 C18"
 LEVEL_NOTE = ("Trusted: Coq kernel+VM, the generator g30_locales (ast -> Gallina tables; str.format field parsing by string.Formatter), the hand model of the key construction "
               "(its source text is pinned by the generator and every output string is compared), the hand models LocaleSession.v (default-locale state machine) and "
